@@ -107,15 +107,27 @@ def T_user_lmi(rng, v=0):
         # upper entry  t/2 + <.,.>/2 ,  lower entry  t/2 + <.,.>/2  written differently: symmetric as a function, not as text
     if (v // 2) % 2 == 0:
         f.add_psd_matrix([[1, (x1 - xs) * g0], [(x1 - xs) * g0, L * L * 4]])
+    snapshots = []
     if (v // 4) % 2 == 1:
         # the binding LMI (constant entry 1) is attached to the function, not to the problem
         f.add_psd_matrix(mat)
         m = f.list_of_psd[-1]
+    elif v % 3 == 1:
+        # declared from a numpy OBJECT array which the user goes on using as a buffer: the declared LMI is what it was when declared
+        import numpy as np
+        buf = np.empty((2, 2), dtype=object)
+        for i_ in range(2):
+            for j_ in range(2):
+                buf[i_, j_] = mat[i_][j_]
+        m = p.add_psd_matrix(buf)
+        snapshots.append((m, [[m[i_, j_] for j_ in range(2)] for i_ in range(2)]))
+        buf[0, 0] = 5 * b
+        buf[1, 1] = 7
     else:
         m = p.add_psd_matrix(mat)
     p.add_constraint(t <= 2)
     p.set_performance_metric(t)
-    return p, dict(points=[x0, x1, xs], exprs=[t, a], funcs=[f], lmis=[m], symmetric_as_written=sym)
+    return p, dict(points=[x0, x1, xs], exprs=[t, a], funcs=[f], lmis=[m], symmetric_as_written=sym, lmi_snapshots=snapshots)
 
 
 def T_asym_lmi(rng, v=0):
@@ -304,6 +316,8 @@ def T_blocks(rng, v=0):
     d = rng.choice([2, 3])
     Ls = [rng.choice([1.0, 2.0]) for _ in range(d)]
     p = PEP()
+    if (v // 2) % 2 == 1:
+        p.declare_block_partition(d=1)          # another partition, never used, declared BEFORE the one that matters
     part = p.declare_block_partition(d=d)
     f = p.declare_function(BlockSmoothConvexFunction, L=Ls, partition=part)
     xs = f.stationary_point()
@@ -340,6 +354,10 @@ def T_linear(rng, v=0):
     x0 = p.set_initial_point()
     p.set_initial_condition(x0 ** 2 <= 1)
     y = M.gradient(x0)
+    if v % 4 == 3:
+        # ONE sample only: no scalar class constraint exists, the class LMI is all there is
+        p.set_performance_metric(y ** 2)
+        return p, dict(points=[x0, y], exprs=[y ** 2], funcs=[M], class_lmi=True, lmi_symmetric_as_written=False)
     z = M.gradient(y)
     p.set_performance_metric(z * x0)
     return p, dict(points=[x0, y, z], exprs=[z * x0], funcs=[M], class_lmi=True, lmi_symmetric_as_written=False)
